@@ -21,12 +21,15 @@ CONSTANTS U,          \* [name -> [acct, asset, vote, amt, vh, where]]
                       \* AND unconfirmed is counted (and may be picked) twice -- used only to classify
                       \* a rejected trace, never to accept one.
 
-VARIABLES reserved,   \* [name -> rid or 0]
+VARIABLES where,      \* [name -> "none" | "conf" | "unconf" | "both"]: how the output is listed now. It starts as U says and
+                      \* moves with the pool and the chain: AddUnconfirmedUtxo, RemoveUnconfirmedUtxo (the pool's removal
+                      \* event, also sent when the transaction was confirmed), the wallet writing a confirmed record
+          reserved,   \* [name -> rid or 0]
           resv,       \* [rid -> [utxos : SUBSET names, exp : Nat]] live reservations
           used,       \* reservation ids handed out so far
           last        \* last call with its result (generator instance)
 
-vars == <<reserved, resv, used, last>>
+vars == <<where, reserved, resv, used, last>>
 Names == DOMAIN U
 
 Range(s) == {s[i] : i \in 1..Len(s)}
@@ -36,15 +39,16 @@ SumSeq(s) == IF s = <<>> THEN 0 ELSE U[Head(s)].amt + SumSeq(Tail(s))
 RECURSIVE SumSet(_, _)
 SumSet(S, unc) == IF S = {} THEN 0
                   ELSE LET x == CHOOSE y \in S : TRUE IN
-                       U[x].amt * (IF DupCounts /\ unc /\ U[x].where = "both" THEN 2 ELSE 1) + SumSet(S \ {x}, unc)
+                       U[x].amt * (IF DupCounts /\ unc /\ where[x] = "both" THEN 2 ELSE 1) + SumSet(S \ {x}, unc)
 
-Visible(u, unc) == U[u].where \in {"conf", "both"} \/ (unc /\ U[u].where \in {"unconf", "both"})
+Visible(u, unc) == where[u] \in {"conf", "both"} \/ (unc /\ where[u] \in {"unconf", "both"})
 Mature(u) == U[u].vh <= Height
-Copies(u, unc) == IF DupCounts /\ unc /\ U[u].where = "both" THEN 2 ELSE 1
+Copies(u, unc) == IF DupCounts /\ unc /\ where[u] = "both" THEN 2 ELSE 1
 Match(acct, asset, vote, unc) ==
   {u \in Names : U[u].acct = acct /\ U[u].asset = asset /\ U[u].vote = vote /\ Visible(u, unc)}
 
-Init == /\ reserved = [u \in Names |-> 0] /\ resv = <<>> /\ used = {}
+Where0 == [u \in Names |-> U[u].where]
+Init == /\ where = Where0 /\ reserved = [u \in Names |-> 0] /\ resv = <<>> /\ used = {}
         /\ last = [op |-> "init"]
 
 Live == DOMAIN resv
@@ -107,6 +111,16 @@ Expire(t) ==
   /\ resv' = Drop(R)
   /\ UNCHANGED used
 
+(* The listing of an output changes; who holds it does not: a reservation keeps its outputs however they are   *)
+(* listed, until it is cancelled or expires.                                                                    *)
+Move(u, op) ==
+  /\ u \in Names
+  /\ where' = [where EXCEPT ![u] =
+        CASE op = "addunc"  -> (IF @ = "conf" THEN "both" ELSE IF @ = "none" THEN "unconf" ELSE @)
+          [] op = "rmunc"   -> (IF @ = "both" THEN "conf" ELSE IF @ = "unconf" THEN "none" ELSE @)
+          [] op = "confirm" -> (IF @ = "unconf" THEN "both" ELSE IF @ = "none" THEN "conf" ELSE @)]
+  /\ UNCHANGED <<reserved, resv, used>>
+
 Pairs == {<<u, reserved[u]>> : u \in {x \in Names : reserved[x] # 0}}
 
 -----------------------------------------------------------------------------
@@ -123,7 +137,8 @@ CONSTANTS Keys,      \* set of <<acct, asset, vote>> requests
           Amounts,   \* [key -> set of amounts]
           PNames,    \* outputs used for ReserveParticular (may include a name outside U)
           Exps,      \* abstract expiry times
-          MaxRes     \* bound on successful reservations
+          MaxRes,    \* bound on successful reservations
+          MNames     \* outputs whose listing moves (empty: the static universe)
 
 RECURSIVE SetToSeq(_)
 SetToSeq(S) == IF S = {} THEN <<>> ELSE LET x == CHOOSE y \in S : TRUE IN <<x>> \o SetToSeq(S \ {x})
@@ -134,25 +149,27 @@ GReserve == \E k \in Keys, unc \in BOOLEAN, e \in Exps : \E amt \in Amounts[k] :
       call == [op |-> "reserve", acct |-> k[1], asset |-> k[2], vote |-> k[3], amt |-> amt, unc |-> unc, exp |-> e] IN
   IF c # "ok"
     THEN /\ Reserve(k[1], k[2], k[3], amt, unc, e, c, 0, <<>>, 0)
-         /\ last' = call
+         /\ last' = call /\ UNCHANGED where
     ELSE /\ Cardinality(used) < MaxRes
          /\ \E S \in SUBSET {u \in M : Mature(u) /\ reserved[u] = 0} :
               /\ S # {}
               /\ LET us == SetToSeq(S) IN
                  /\ SumSeq(us) >= amt
                  /\ Reserve(k[1], k[2], k[3], amt, unc, e, "", Cardinality(used) + 1, us, SumSeq(us) - amt)
-         /\ last' = call
+         /\ last' = call /\ UNCHANGED where
 GParticular == \E u \in PNames, unc \in BOOLEAN, e \in Exps :
   /\ \E err \in {"", "reserved", "nomatch", "immature"} :
         /\ (err = "" => Cardinality(used) < MaxRes)
         /\ Particular(u, unc, e, err, Cardinality(used) + 1, <<u>>, 0)
-  /\ last' = [op |-> "particular", u |-> u, unc |-> unc, exp |-> e]
-GCancel == \E r \in 1..MaxRes : Cancel(r) /\ last' = [op |-> "cancel", rid |-> r]
-GExpire == \E t \in Exps \cup {0} : Expire(t + 1) /\ last' = [op |-> "expire", t |-> t + 1]
+  /\ last' = [op |-> "particular", u |-> u, unc |-> unc, exp |-> e] /\ UNCHANGED where
+GCancel == \E r \in 1..MaxRes : Cancel(r) /\ last' = [op |-> "cancel", rid |-> r] /\ UNCHANGED where
+GExpire == \E t \in Exps \cup {0} : Expire(t + 1) /\ last' = [op |-> "expire", t |-> t + 1] /\ UNCHANGED where
+GMove == \E u \in MNames, op \in {"addunc", "rmunc", "confirm"} :
+           /\ Move(u, op) /\ where' # where /\ last' = [op |-> op, u |-> u]
 
-Next == GReserve \/ GParticular \/ GCancel \/ GExpire
+Next == GReserve \/ GParticular \/ GCancel \/ GExpire \/ GMove
 Spec == Init /\ [][Next]_vars
-View == <<reserved, resv, used>>
+View == <<where, reserved, resv, used>>
 
 -----------------------------------------------------------------------------
 (* The universe used by the configurations (current height 10).                          *)
@@ -168,5 +185,7 @@ UU == [n \in {"u1", "u2", "u3", "u4", "u5", "u6", "u7"} |->
           [] n = "u7" -> [acct |-> "A1", asset |-> "Y", vote |-> "",  amt |-> 8, vh |-> 0,  where |-> "both"]]
 KeysQ == {<<"A1", "X", "">>, <<"A2", "X", "">>, <<"A1", "X", "v">>, <<"A1", "Y", "">>}
 AmountsQ == [k \in KeysQ |-> IF k = <<"A1", "X", "">> THEN {3, 6, 8, 9, 10, 11, 12, 14, 15} ELSE {6, 9}]
+KeysM == {<<"A1", "X", "">>}
+AmountsM == [k \in KeysM |-> {2, 3, 6}]
 AmountsS == [k \in KeysQ |-> IF k = <<"A1", "X", "">> THEN {3, 8, 10, 11, 14} ELSE {6}]
 =============================================================================
